@@ -2,9 +2,11 @@
 //! once per process, so every case runs in a fresh child process (`macros child`, case on stdin).
 //!
 //!   mac <prefixhex|UNSET> <tags> <cid> <invocations> => <obs>
+//!   macn …  the same, the child process built with debug assertions and overflow checks off (profile `nodebug`)
 //!     tags / cid as in engine fmt;  invocations: `;` list of <entry>/<keyhex>/<value>/<tagpairs>/<sink>
 //!       or the marker SET: invocations before it run with no global client, then it is installed
-//!       entry    : one of the 22 value-typed entry points (count_i64 … set_i64; no incr/decr)
+//!       entry    : one of the 22 value-typed entry points (count_i64 … set_i64; no incr/decr), or `nest`:
+//!                  statsd_gauge!(key, { statsd_count!("inner.calls", 1); value }) — an invocation inside an argument
 //!       tagpairs : `-` | comma list of <khex>:<vhex>  (0..4 pairs: macro arity is static)
 //!       sink     : a | r<k>
 //!     obs : `;` list per invocation of comma lists of events, in order:
@@ -125,6 +127,20 @@ fn do_invocation(entry: &str, key: &str, valt: &str, tags: &Vec<(String, String)
         "dist_vu64" => invoke!(statsd_distribution, key, vu(), tags),
         "dist_vf64" => invoke!(statsd_distribution, key, vf(), tags),
         "set_i64" => invoke!(statsd_set, key, valt.parse::<i64>().unwrap(), tags),
+        "nest" => {
+            let v = valt.parse::<u64>().unwrap();
+            statsd_gauge!(
+                {
+                    ev(0);
+                    key
+                },
+                {
+                    ev(1);
+                    statsd_count!("inner.calls", 1i64);
+                    v
+                }
+            );
+        }
         _ => return false,
     }
     true
@@ -132,7 +148,7 @@ fn do_invocation(entry: &str, key: &str, valt: &str, tags: &Vec<(String, String)
 
 fn run_child(line: &str) -> String {
     let f: Vec<&str> = line.trim().split(' ').collect();
-    if f.len() != 5 || f[0] != "mac" {
+    if f.len() != 5 || (f[0] != "mac" && f[0] != "macn") {
         return "malformed".to_string();
     }
     let install = |f: &Vec<&str>| {
@@ -189,6 +205,9 @@ fn run_child(line: &str) -> String {
         {
             let mut s = SCRIPT.lock().unwrap();
             s.clear();
+            if p[0] == "nest" {
+                s.push_back(None); // the inner invocation's metric is accepted
+            }
             s.push_back(if p[4] == "a" { None } else { Some(p[4][1..].parse().unwrap()) });
             *TOK.lock().unwrap() = i as u64 + 1;
             EVENTS.lock().unwrap().clear();
@@ -206,7 +225,15 @@ fn run_child(line: &str) -> String {
 }
 
 fn run_case_in_child(case: &str) -> String {
-    let exe = std::env::current_exe().unwrap();
+    let mut exe = std::env::current_exe().unwrap();
+    if case.starts_with("macn ") {
+        // …/target/release/macros → …/target/nodebug/macros
+        let name = exe.file_name().unwrap().to_owned();
+        exe.pop();
+        exe.pop();
+        exe.push("nodebug");
+        exe.push(name);
+    }
     let mut child = std::process::Command::new(exe)
         .arg("child")
         .stdin(std::process::Stdio::piped())
@@ -278,7 +305,7 @@ fn main() {
     let mut rng = Rng::new(env_seed());
     let mut count = 0u64;
     let ncfg = if tier == "quick" { 60 } else { 1500 };
-    let strs = ["k", "some.key", "a", "web-01", "日本", "", "x_y"];
+    let strs = ["k", "some.key", "a", "web-01", "日本", "", "x_y", "http:requests", "a|b", "l\nm", "#x", "a,b", "@t"];
     for c in 0..ncfg {
         let unset = c % 12 == 11;
         let prefix = if unset { "UNSET".to_string() } else { h(*rng.pick(&["", "p", "app.", "a..", "日本"])) };
@@ -307,9 +334,16 @@ fn main() {
             // every 5th configured case installs the global only after two invocations (which must panic)
             if !unset && c % 5 == 4 && invs.len() == 2 {
                 invs.push("SET".to_string());
+                // the same two call sites again, now with the global client installed
+                invs.push(invs[0].clone());
+                invs.push(invs[1].clone());
+            }
+            if (j + c) % 7 == 3 {
+                let sink = if rng.chance(30) { format!("r{}", rng.below(16)) } else { "a".to_string() };
+                invs.push(format!("nest/{}/{}/-/{}", h(*rng.pick(&strs)), rng.below(100), sink));
             }
         }
-        let case = format!("mac {} {} {} {}", prefix, if tags.is_empty() { "-".to_string() } else { tags.join(",") }, cid, invs.join(";"));
+        let case = format!("{} {} {} {} {}", if c % 2 == 1 { "macn" } else { "mac" }, prefix, if tags.is_empty() { "-".to_string() } else { tags.join(",") }, cid, invs.join(";"));
         writeln!(out, "{} => {}", case, run_case_in_child(&case)).unwrap();
         count += 1;
     }
